@@ -2,6 +2,7 @@ import PC.Proofs.SupArms
 import PC.Proofs.SupTail
 import PC.Spec.SupSpec
 import PC.Proofs.SupExitRule
+import PC.Proofs.SupOne
 /-! C04 — project completion and exit code (supervisor model). -/
 namespace PC.Props.C04
 open PC.Sup
@@ -117,5 +118,19 @@ theorem exit_code_is_a_triggers (s : Sys) (t : Tid) (h : Hints) (h0 : s.exitCode
 theorem events_leave_exit_code (s : Sys) (c : Choice) (h : Hints) (hc : ∀ t, c ≠ .run t) :
     (step s c h).exitCodeSet = s.exitCodeSet ∧ (step s c h).exitCode = s.exitCode :=
   exit_not_set_by_events s c h hc
+
+/-- **`Run()` does not return while a launched command is still alive** (C04, global, outside the
+    overlap finding R1): in every state reachable without overwriting a registration - every schedule
+    at the finest granularity, every sequence of events and requests - whenever the thread that called
+    `Run()` is able to pass the project wait group (after which `Run()` returns), no command of any
+    instance is alive. (A live command has its goroutine parked at `cmd:wait` - invariant `One` - while
+    the wait group can only be passed when every process goroutine has run its `wg.Done()`.) -/
+theorem run_cannot_return_while_a_command_is_alive (gr : PC.Sup.Gran) (o : Bool) (cfgs : List PC.Sup.Cfg) {s : PC.Sup.Sys}
+    (hr : PC.Sup.ReachG (PC.Sup.init gr o cfgs) s) (u : PC.Sup.Tid) (hp : (s.thr u).pc = .runWg)
+    (hen : PC.Sup.enabledThr s u = true) (i : PC.Sup.IId) : (s.inst i).cmd ≠ .alive := by
+  intro ha
+  obtain ⟨w, hw, hk, hpc⟩ := (PC.Sup.reachG_one gr o cfgs hr).alive i ha
+  have := (PC.Sup.run_passes_only_when_all_done gr o cfgs hr.toF u hp hen w hw i hk).1
+  rcases this with e | e <;> rw [hpc] at e <;> cases e
 
 end PC.Props.C04
